@@ -333,6 +333,38 @@ def run(rep: Report, tier: str) -> None:
 		lens = [unparse(c_) for c_ in nodes(ax, ast.Compare) if 'len(' in unparse(c_)]
 		vararg_ = ai.node.args.vararg.arg if ai.node.args.vararg else 'remain_args'
 		rc.check(not bad, 'assert-invoke:bounded-index', ai.where, f'__assert_invoke reads `{unparse(bad[0]) if bad else ""}` with the position of an element of another sequence and no bound: more arguments than unresolved parameters raise IndexError instead of the documented ValueError', unparse(bad[0]) if bad else '')
+		# the number of remaining arguments must be compared with the number of EXPECTED parameters (the list cut from the annotations), directly or through
+		# a chain of length comparisons; a list built by zip(arguments, expected) is as long as the shorter of the two and proves nothing about the longer
+		expected_names = {t.id for st in nodes(ax, ast.Assign) for t in st.targets if isinstance(t, ast.Name) and any(isinstance(x, ast.Name) and x.id in ai.params() and x.id not in (vararg_, 'self') for x in ast.walk(st.value)) and 'zip' not in unparse(st.value)}
+		grew = True
+		while grew:
+			grew = False
+			for st in nodes(ax, ast.Assign):
+				for t in st.targets:
+					if isinstance(t, ast.Name) and t.id not in expected_names and 'zip' not in unparse(st.value) and isinstance(st.value, (ast.ListComp, ast.Call, ast.Name, ast.Subscript)) and {x.id for x in ast.walk(st.value) if isinstance(x, ast.Name)} & expected_names and vararg_ not in {x.id for x in ast.walk(st.value) if isinstance(x, ast.Name)}:
+						expected_names.add(t.id)
+						grew = True
+		edges: list[tuple[str, str]] = []
+		for c_ in nodes(ax, ast.Compare):
+			if len(c_.ops) == 1 and isinstance(c_.ops[0], (ast.Eq, ast.NotEq)):
+				l_, r_ = c_.left, c_.comparators[0]
+				if all(isinstance(x, ast.Call) and unparse(x.func) == 'len' and x.args for x in (l_, r_)):
+					edges.append((unparse(l_.args[0]), unparse(r_.args[0])))
+		reach = {vararg_}
+		changed = True
+		while changed:
+			changed = False
+			for a_, b_ in edges:
+				if a_ in reach and b_ not in reach:
+					reach.add(b_); changed = True
+				elif b_ in reach and a_ not in reach:
+					reach.add(a_); changed = True
+		zipped = {t.id for st in nodes(ax, ast.Assign) for t in st.targets if isinstance(t, ast.Name) and 'zip(' in unparse(st.value)}
+		through_zip_only = not (reach & expected_names) or all(n_ in zipped or n_ == vararg_ for n_ in reach - expected_names if n_ != vararg_) and not any((a_ in expected_names and b_ == vararg_) or (b_ in expected_names and a_ == vararg_) or (a_ in expected_names and b_ not in zipped) or (b_ in expected_names and a_ not in zipped) for a_, b_ in edges)
+		if expected_names and edges:
+			direct = any({a_, b_} == {vararg_, e_} for a_, b_ in edges for e_ in expected_names)
+			via_full = any((a_ in expected_names and b_ in reach and b_ not in zipped) or (b_ in expected_names and a_ in reach and a_ not in zipped) for a_, b_ in edges)
+			rc.check(direct or via_full, 'assert-invoke:count-vs-expected', ai.where, f'__assert_invoke compares lengths {edges} but never the number of remaining arguments (len({vararg_})) with the number of expected parameters ({sorted(expected_names)}) except through a zip()-built list, which is as long as the SHORTER of the two: a call with too few arguments passes the check and fails later with TypeError (or silently uses a default) instead of ValueError')
 		rc.check(any(f'len({vararg_})' in l for l in lens), 'assert-invoke:compares-argument-count', ai.where, f'__assert_invoke never compares the number of remaining arguments (len({vararg_})) with the number of unresolved parameters (length tests: {lens}): surplus arguments are not reported as ValueError')
 
 	# ---- (d) wiring ------------------------------------------------------------------------------------------------------------
